@@ -407,6 +407,34 @@ func ruleR07k(c *Ctx) {
 			// an earlier statement of the body: if <looks key up in L> { ... return }
 			guarded := false
 			for _, prev := range fd.Body.List[:si] {
+				// the search written out: for i := len(tc.locals)-1; ..; i-- { if v.name == key { ..; return } }
+				switch prev.(type) {
+				case *ast.ForStmt, *ast.RangeStmt:
+					readsTable, cmpKey, returns := false, false, false
+					ast.Inspect(prev, func(y ast.Node) bool {
+						switch e := y.(type) {
+						case *ast.SelectorExpr:
+							if fv, ok := info.Uses[e.Sel].(*types.Var); ok && L[fv] {
+								readsTable = true
+							}
+						case *ast.BinaryExpr:
+							if e.Op == token.EQL {
+								for _, side := range []ast.Expr{e.X, e.Y} {
+									if id, ok := ast.Unparen(side).(*ast.Ident); ok && info.Uses[id] == info.Uses[kid] {
+										cmpKey = true
+									}
+								}
+							}
+						case *ast.ReturnStmt:
+							returns = true
+						}
+						return true
+					})
+					if readsTable && cmpKey && returns {
+						guarded = true
+					}
+					continue
+				}
 				ifs, ok := prev.(*ast.IfStmt)
 				if !ok || len(ifs.Body.List) == 0 {
 					continue
